@@ -53,6 +53,12 @@ def generated_queries(tier='quick'):
         ('subselect-same', 'SELECT * FROM int1.tbl1 WHERE a IN (SELECT id FROM int1.tbl2)'),
         ('subselect-nested-other', 'SELECT * FROM int1.tbl1 WHERE a IN (SELECT id FROM int1.tbl2 WHERE b IN (SELECT id FROM int2.tbl3))'),
         ('subselect-model', 'SELECT * FROM int1.tbl1 WHERE a IN (SELECT p FROM mindsdb.pred WHERE x = 1)'),
+        ('cte-name-collision', 'WITH tbl2 AS (SELECT * FROM int1.tbl1) SELECT * FROM tbl2 o JOIN int2.tbl2 a ON o.id = a.id'),
+        ('cte-name-collision-sub', 'WITH tbl2 AS (SELECT * FROM int1.tbl1) SELECT * FROM tbl2 WHERE id IN (SELECT id FROM INT2.tbl2)'),
+        ('cte-shadows-own-table', 'WITH tbl1 AS (SELECT * FROM int1.tbl1 WHERE a = 1) SELECT * FROM tbl1 JOIN int2.tbl2 AS t2 ON t2.id = tbl1.id'),
+        ('cte-shadows-default-table', 'WITH tbl1 AS (SELECT * FROM tbl1 WHERE a = 1) SELECT * FROM tbl1 JOIN int2.tbl2 AS t2 ON t2.id = tbl1.id'),
+        ('cte-unused', 'WITH u AS (SELECT a FROM int1.tbl1) SELECT * FROM int1.tbl1 a JOIN int2.tbl2 b ON b.id = a.id'),
+        ('subselect-from-join', 'SELECT * FROM (SELECT * FROM int1.tbl1 WHERE a IN (SELECT id FROM int2.tbl3)) AS s JOIN int2.tbl2 AS t2 ON s.id = t2.id'),
         ('subselect-from', 'SELECT x.a FROM (SELECT a FROM int1.tbl1 WHERE b = 1) AS x JOIN int2.tbl2 AS t2 ON x.a = t2.a'),
         ('case-operand-subquery', "SELECT CASE (SELECT max(c) FROM int2.tbl2) WHEN 1 THEN 'a' ELSE 'b' END FROM int1.tbl1"),
         ('union', 'SELECT a FROM int1.tbl1 UNION SELECT a FROM int2.tbl2'),
@@ -194,6 +200,9 @@ REUSE_HISTORIES = [
     ['WITH t AS (SELECT a FROM int1.tbl1) SELECT * FROM t JOIN int2.tbl2 AS t2 ON t.a = t2.a', 'SELECT x FROM t WHERE x > 1', 'SELECT a FROM int1.t'],
     ['SELECT * FROM int1.tbl1 AS t JOIN mindsdb.pred AS m USING partition_size = 10', 'SELECT * FROM int1.tbl1 AS t JOIN int2.tbl2 AS t2 ON t.id = t2.id', 'SELECT * FROM int1.tbl1 AS t JOIN mindsdb.pred AS m'],
     ['SELECT * FROM int1.tbl1 t1 JOIN int2.tbl2 t2 ON t1.id = t2.id WHERE t1.a = 1 LIMIT 3', 'SELECT * FROM int1.tbl1 t1 JOIN int2.tbl2 t2 ON t1.id = t2.id', 'SELECT a FROM int1.tbl1 WHERE b = 1'],
+    ["SELECT * FROM int1.tbl1 AS t JOIN mindsdb.tp AS m WHERE t.t > LATEST AND t.g = 1", "SELECT * FROM int1.tbl1 AS t JOIN mindsdb.tp AS m WHERE t.t > '2020-01-01' AND t.g = 1",
+     "SELECT * FROM int1.tbl1 AS t JOIN mindsdb.tp AS m WHERE t.t > LATEST AND t.g = 1"],
+    ['SELECT * FROM int1.tbl1 t1 JOIN int2.tbl2 t2 ON t1.id = t2.id', 'SELECT * FROM (SELECT * FROM int1.tbl1 WHERE a IN (SELECT id FROM int2.tbl3)) AS s JOIN int2.tbl2 AS t2 ON s.id = t2.id'],
     ['SELECT * FROM mindsdb.pred.3 WHERE x = 1', 'SELECT * FROM mindsdb.pred WHERE x = 1', 'SELECT * FROM int1.tbl1 AS t JOIN mindsdb.pred AS m'],
 ]
 
